@@ -311,8 +311,8 @@ pub fn parse(ctx: &mut Ctx) {
             }
         }
         for (name, a) in &answers {
-            if a.starts_with("panic") {
-                ctx.violation("C07", "reader panicked", json!({"src":src,"input":hex(&input),"path":name,"answer":a}));
+            if a.starts_with("panic") || a.contains("hang") {
+                ctx.violation("C07", "reader panicked or iterates forever", json!({"src":src,"input":hex(&input),"path":name,"answer":a[..a.len().min(200)].to_string()}));
             }
             if a.contains("end=ok") { ctx.count("outcome:ok"); } else if a.contains("err") { ctx.count("outcome:err"); }
         }
@@ -357,9 +357,9 @@ pub fn truncate(ctx: &mut Ctx) {
             let complete = ends.iter().filter(|e| **e <= k).count();
             ctx.oracle_eval();
             for (i, (name, a)) in answers.iter().enumerate() {
-                if a.starts_with("panic") {
-                    ctx.violation("C06", "reader panicked on a truncated archive", json!({"archive":desc,"full":hex(&full),"cut":k,"path":name,"answer":a}));
-                    ctx.violation("C07", "reader panicked on a truncated archive", json!({"input":hex(input),"path":name,"answer":a}));
+                if a.starts_with("panic") || a.contains("hang") {
+                    ctx.violation("C06", "reader panicked or iterates forever on a truncated archive", json!({"archive":desc,"full":hex(&full),"cut":k,"path":name,"answer":a[..a.len().min(200)].to_string()}));
+                    ctx.violation("C07", "reader panicked or iterates forever on a truncated archive", json!({"input":hex(input),"path":name,"answer":a[..a.len().min(200)].to_string()}));
                     continue;
                 }
                 let ok = if i < 2 { a.ends_with(" end") } else { a.contains("end=ok") };
@@ -411,9 +411,9 @@ pub fn alter(ctx: &mut Ctx) {
             let before = ends.iter().filter(|e| **e <= off).count();
             ctx.oracle_eval();
             for (i, (name, a)) in answers.iter().enumerate() {
-                if a.starts_with("panic") {
-                    ctx.violation("C07", "reader panicked on an altered archive", json!({"input":hex(&input),"path":name,"answer":a}));
-                    ctx.violation("C05", "reader panicked on an altered archive", json!({"archive":desc,"full":hex(&full),"offset":off,"mask":mask,"path":name,"answer":a}));
+                if a.starts_with("panic") || a.contains("hang") {
+                    ctx.violation("C07", "reader panicked or iterates forever on an altered archive", json!({"input":hex(&input),"path":name,"answer":a[..a.len().min(200)].to_string()}));
+                    ctx.violation("C05", "reader panicked or iterates forever on an altered archive", json!({"archive":desc,"full":hex(&full),"offset":off,"mask":mask,"path":name,"answer":a[..a.len().min(200)].to_string()}));
                     continue;
                 }
                 let ok = if i < 2 { a.ends_with(" end") } else { a.contains("end=ok") };
